@@ -87,8 +87,8 @@ theorem createHeader_declares {c : HdrCfg} {info : Extracted} {header h : Text}
     have hg := (createNewHeader_ok hok').2
     unfold guardOk at hg
     simp only [Bool.and_eq_true] at hg
-    refine ⟨⟨fun x hx => (sameSet_iff.mp hg.1 x).mp hx, fun x hx => ?_⟩, fun h => (h rfl).elim⟩
-    exact (sameSet_iff.mp hg.2 _).mp (List.mem_map.mpr ⟨x, hx, rfl⟩)
+    refine ⟨⟨fun x hx => (sameSet_iff.mp hg.2.1.1 x).mp hx, fun x hx => ?_⟩, fun h => (h rfl).elim⟩
+    exact (sameSet_iff.mp hg.2.1.2 _).mp (List.mem_map.mpr ⟨x, hx, rfl⟩)
   · unfold createHeader at hok
     have he' : header.isEmpty = false := by cases header <;> simp_all
     simp only [he', Bool.false_eq_true, if_false] at hok
@@ -101,8 +101,8 @@ theorem createHeader_declares {c : HdrCfg} {info : Extracted} {header h : Text}
       have hg := (createNewHeader_ok hok').2
       unfold guardOk at hg
       simp only [Bool.and_eq_true] at hg
-      have h1 := sameSet_iff.mp hg.1
-      have h2 := sameSet_iff.mp hg.2
+      have h1 := sameSet_iff.mp hg.2.1.1
+      have h2 := sameSet_iff.mp hg.2.1.2
       have hl : ∀ x, x ∈ (extractRaw header).lic ∨ x ∈ info.lic → c.normLic x ∈ (extractRaw h).lic.map c.normLic := by
         intro x hx
         rw [← h2 (c.normLic x)]
